@@ -24,7 +24,9 @@ MANIFEST = {
     "text": "Coq theorems over the schema-interpreter model (all inputs, all fuels): re-cleaning an encoded value is the "
             "identity per property kind (clean_encode_idem), hence the constructor returns the same object from the object's own "
             "encoding and re-encoding gives the same ordered members (roundtrip_equal_partial / reserialize_identical_partial: "
-            "110 of the 123 generated classes, plain JSON input; the class list is recomputed by the kernel each run); "
+            "118 of the 123 generated classes incl. Relationship, Sighting and both MarkingDefinition classes with the wrapped "
+            "definition and the 2.0 per-instance precision of created, plain JSON input; the class list is recomputed by the "
+            "kernel each run; roundtrip_equal_parse_partial: the same at stix2.parse level for 86 entry-point classes); "
             "the two encoders differ exactly on defaulted optionals; sort_keys/indent/compact/pretty are permutations of "
             "members (same JSON value); pretty keeps the top-level class order. Model tied to /repo by regenerated class "
             "tables and a correspondence run of serialize under every option; the property itself is evaluated on the real "
@@ -273,9 +275,44 @@ def gen_cases(run, per_class):
             cases.append(case)
             # objects the library derives from that object's Python values (not from JSON-like data)
             if r.random() < 0.5:
-                how = r.choice(["deepcopy", "rebuild", "other-version", "new-version"])
+                how = r.choice(["deepcopy", "rebuild", "other-version", "new-version", "zone:" + r.choice(ZONES)])
                 cases.append(dict(case, derive=how, opts=CORE_OPTS[:4] + [r.choice(ALL_OPTS)]))
+            if i == 0:
+                # every class once with its timestamps given as aware datetimes of another zone
+                cases.append(dict(case, derive="zone:" + r.choice(ZONES), opts=CORE_OPTS[:2]))
     return cases
+
+
+# zones for timestamps given as aware datetimes: fixed offsets and named zones (with daylight saving)
+ZONES = ["+05:30", "-04:00", "+14:00", "-09:30", "US/Eastern", "Europe/Berlin", "Asia/Kolkata", "Australia/Lord_Howe"]
+
+
+def late_cases(gen, n):
+    """custom types that are looked up (parsed as unknown) before they are registered in the worker, then used"""
+    r = gen.rng
+    out = []
+    t0 = "2016-01-01T00:00:00.000Z"
+    for i in range(n):
+        ver = r.choice(["2.0", "2.1"])
+        kind = r.choice(["obj", "obj", "obs"])
+        t = "x-c01-late-%s%s-%04d" % (kind, ver.replace(".", ""), r.randrange(10000))
+        d = {"type": t}
+        if kind == "obj":
+            d.update({"id": t + "--" + gen.uuid(), "created": t0, "modified": t0, "x_foo": gen.string(True) or "v"})
+            if ver == "2.1":
+                d["spec_version"] = "2.1"
+        else:
+            d["value"] = gen.string(True) or "v"
+            if ver == "2.1":
+                if r.random() < 0.5:
+                    d["id"] = t + "--" + gen.uuid(5)
+                else:
+                    d["spec_version"] = "2.1"
+        route = r.choice(["construct", "parse"])
+        data = {k: v for k, v in d.items() if not (route == "construct" and k == "type")}
+        out.append({"route": route, "cid": "custom/%s/%s" % (ver, t), "data": data, "allow": False,
+                    "late": {"type": t, "ver": ver, "kind": kind}, "opts": CORE_OPTS[:3]})
+    return out
 
 
 EXT_OBJ = "extension-definition--a932fcc6-e032-476c-826f-cb970a5a1ade"
@@ -366,6 +403,11 @@ def has_unregistered_toplevel_ext(d):
 def classify(case, res, f):
     """Narrow finding ids for defects of the unchanged code."""
     d = case["data"]
+    if (f["kind"] in ("not-equal", "reserialize-differs") and res.get("cls") == "2.0/MarkingDefinition"
+            and str(case.get("derive", "")).startswith("zone:")
+            and isinstance(d.get("created"), str) and "." in d["created"] and d.get("definition_type") != "tlp"):
+        # `created` reaches the constructor as a plain datetime with a sub-second part
+        return "C01-v20-marking-created-plain-datetime-with-fraction-not-reparsed-equal"
     if (f["kind"] == "reserialize-differs" and res.get("cls") == "2.0/MarkingDefinition" and case.get("derive")
             and isinstance(d.get("created"), str) and "." in d["created"] and d.get("definition_type") != "tlp"):
         return "C01-v20-marking-created-precision-lost-on-rebuild"
@@ -387,7 +429,10 @@ def check(run):
     run.coverage["rule"] = (
         "for every registered object/observable class of STIX 2.0 and 2.1 (frozen registries): %d generated objects "
         "(optional-property density 0..1, defaults set explicitly, granular markings, custom content in 35%%), made through "
-        "parse() or the constructor, serialized under 9 sampled option sets (all 34 for every 5th object); "
+        "parse() or the constructor, serialized under 9 sampled option sets (all 34 for every 5th object); objects derived from "
+        "Python values (deepcopy, rebuilt from values, other spec version, new_version, every timestamp at every depth given as "
+        "an aware datetime of another zone: fixed offsets and named zones), custom types registered in the worker up front "
+        "and custom types first looked up while unknown and registered afterwards; "
         "non-trivial = the object was created" % per_class)
     model_ok = sc.translate_and_build(run, "Props/C01.v")
     variants = sc.detect_variants(run)
@@ -398,7 +443,7 @@ def check(run):
             hdr = ("From Coq Require Import List String.\nFrom V Require Import Base.UString Model.SchemaTypes "
                    "Proofs.C01LibInstance Gen.Tables.\nImport ListNotations. Open Scope string_scope.\n"
                    "Definition names (l : list ustring) : string := fold_right (fun x acc => append (show_ustr x) (append \" \" acc)) \"\" l.\n")
-            cov = common.coq_eval_lines("c01cov", hdr, ["names lib_proved_ids", "names lib_unproved_ids"])
+            cov = common.coq_eval_lines("c01cov", hdr, ["names lib_proved_idsw", "names lib_unproved_ids"])
             run.coverage["roundtrip_theorem_classes_proved"] = len(cov[0].split())
             run.coverage["roundtrip_theorem_classes_unproved"] = cov[1].split()
         except RuntimeError as e:
@@ -406,6 +451,7 @@ def check(run):
     run.coverage["extension_property_order_sorted"] = SORTED_EXT_ORDER[0]
     cases = FIXED_CASES + gen_cases(run, per_class)
     cases += custom_type_cases(stixgen.Gen(run.rng))
+    cases += late_cases(stixgen.Gen(run.rng), 40 if run.tier == "thorough" else 10)
     results = common.run_impl("c01_impl", cases)
     created = 0
     hist = {}
